@@ -28,7 +28,8 @@ RULE = ("operation_matrix: the finite table (30 management operations written fr
         "can obtain. route_sweep: every url_map rule x 5 methods x 4 roles x {existing, missing} URL variables; "
         "parameter sets: none, ajax=1, each harvested CSRF token under csrf_token in the query, in a multipart "
         "form body and in a JSON body built from the field names the handlers read. csrf_sequences: Hypothesis "
-        "draws up to 12 steps issue(service, jar) / use(token, operation, jar, tamper). Non-trivial: a lesser role "
+        "draws up to 12 steps issue(service, jar) / use(token, operation, jar, tamper) / age(seconds around the 20 min "
+        "replay-record lifetime, with or without intervening logins). Non-trivial: a lesser role "
         "holding at least one harvested token reached a handler (status not 404/405), or a CSRF sequence with >= 2 "
         "uses. distinct = canonical JSON of the case.")
 ASSUMPTIONS = [
